@@ -171,6 +171,9 @@ func (f *FuncVC) applyMod(st *State, m resolvedMod, src string) {
 	// frame check against our own clause
 	if f.con != nil && f.con.HasMod && m.kind != "ghost" {
 		ok := []string{cmp(">=", m.obj, f.wmEntry)}
+		if m.kind == "elems" {
+			ok = append(ok, eq(m.obj, "0")) // a nil slice has no elements
+		}
 		all := false
 		for _, mm := range f.modTargets {
 			switch mm.kind {
